@@ -8,7 +8,9 @@ ASSUMPTIONS = [
     "int/float/bool/str/None/Any MUST be passed by reference; containers of Optional[scalar] MAY be; every other mutable "
     "container must not be shared; with the default dialect nothing may be shared (Any positions excepted)",
     "object unchanged: compared with a twin built from the same symbolic scalars; same for decode inputs",
-    "schemas x no-copy sets enumerated (vf/checks/c18.py)",
+    "schemas x no-copy sets enumerated (vf/checks/c18.py); variant mpfield: the wrapper class is a msgpack + orjson mixin, so "
+    "methods of the same class are also compiled under the format dialects (no_copy_collections = list, dict); to_dict / "
+    "from_dict must still follow the default dialect",
 ]
 TYPES = [
     ("li", "List[int]"), ("ls", "List[str]"), ("loi", "List[Optional[int]]"), ("ldate", "List[datetime.date]"),
@@ -17,8 +19,9 @@ TYPES = [
     ("u_li_d", "Union[Dict[str, int], List[int]]"), ("mix_l", "Gen[int]"), ("od", "OrderedDict[str, int]"),
     ("lany", "List[Any]"), ("any", "Any"), ("td", "TDict"), ("nt", "NT"), ("plain", "Plain"), ("cm", "ChainMap[str, int]"),
     ("dd", "DefaultDict[str, List[int]]"), ("seq", "Sequence[int]"), ("map", "Mapping[str, int]"), ("lb", "List[bytes]"),
-    ("ba", "bytearray"),
+    ("ba", "bytearray"), ("u_date_li", "Union[datetime.date, List[int]]"), ("u_date_dsi", "Union[datetime.date, Dict[str, int]]"),
 ]
+MPFIELD = ("li", "dsl", "lli", "u_li_d", "u_date_li", "u_date_dsi", "oli", "lany")
 NOCOPY = {"none": "()", "list": "(list,)", "dict": "(dict,)", "ld": "(list, dict)", "set": "(set,)",
           "all": "(list, dict, set, frozenset, tuple, collections.deque, collections.OrderedDict)"}
 
@@ -37,6 +40,14 @@ def harnesses(tier, seed):
                     hs.append(gen.value_harness("C18", "c18", s, variant, "Bounds(maxlen=2)", setup_kwargs="no_copy=%s" % nsrc))
                 except Exception as e:
                     skipped.append((s.name, variant, repr(e)[:200]))
+    for tn, texpr in TYPES:
+        if tn in MPFIELD:
+            for nn in ("none",) if tier == "quick" else ("none", "ld"):
+                s = Schema("%s_%s" % (tn, nn), texpr, COMMON_PRELUDE)
+                try:
+                    hs.append(gen.value_harness("C18", "c18", s, "mpfield", "Bounds(maxlen=2)", setup_kwargs="no_copy=%s" % NOCOPY[nn]))
+                except Exception as e:
+                    skipped.append((s.name, "mpfield", repr(e)[:200]))
     return hs, skipped
 
 
